@@ -798,9 +798,19 @@ static int get_operands(
 
     if (operand_count == 0 && IS_TOKEN(token,'.'))
     {
+      token_type = tokens_get(asm_context, token, TOKENLEN);
+
+      // instr and instr_case are TOKENLEN bytes and a mnemonic can be
+      // followed by any number of .suffix tokens.
+      if (strlen(instr) + strlen(token) + 2 > TOKENLEN ||
+          strlen(instr_case) + strlen(token) + 2 > TOKENLEN)
+      {
+        print_error_unexp(asm_context, token);
+        return -1;
+      }
+
       strcat(instr_case, ".");
       strcat(instr, ".");
-      token_type = tokens_get(asm_context, token, TOKENLEN);
       strcat(instr, token);
       n = 0;
       while (token[n] != 0) { token[n] = tolower(token[n]); n++; }
